@@ -136,6 +136,7 @@ class Skeleton:
 class Ctx:
     def __init__(self, prefix=(), feas_timeout=FEAS_TIMEOUT_MS):
         self.pc = []
+        self.pc_ids = set()
         self.solver = z3.SolverFor("QF_LIA") if False else z3.Solver()
         self.solver.set("timeout", feas_timeout)
         self.skel = Skeleton()
@@ -170,6 +171,10 @@ class Ctx:
             return
         if z3.is_false(t):
             raise Infeasible()
+        tid = t.get_id()
+        if tid in self.pc_ids:
+            return
+        self.pc_ids.add(tid)
         self.pc.append(t)
         self._skel_add(t)
 
